@@ -1,8 +1,8 @@
 """C08 — converting a type's JSON Schema (schemars) to OpenAPI (openapiv3) preserves its meaning."""
 import re
 
-from .lib import lit_str, operand_local, root_fn
-from .lib_c08 import Flow, Origins, controllers, field_writes, gen_role
+from .lib import PLUMBING, lit_str, operand_local, root_fn
+from .lib_c08 import ChainOps, Flow, Origins, controllers, field_writes, gen_role
 
 LEVEL = "other"
 TECHNIQUE = ("static analysis: field-sensitive interprocedural source->sink mapping of the converter extracted from MIR and compared with a frozen table; "
@@ -112,6 +112,37 @@ UNREPRESENTABLE = {
 # fields consumed by selection rather than copied
 SELECTORS = {"SchemaObject.instance_type": "selects the OpenAPI type (table checked by C08.R4); an array of types is rejected loudly"}
 
+# value-preserving operations allowed on any source -> sink chain (C08.R1b); everything else needs a per-sink reason below
+CARRY_BASE = PLUMBING + [
+    r"option::Option::<T>::(map|as_ref|as_deref|cloned|copied|unwrap|expect)$",     # map: the closure body is examined; unwrap/expect fail loudly
+    r"string::String::as_str$", r"string::ToString::to_string$", r"clone::Clone::clone_from$",
+]
+_COLLECT = [r"slice::<impl \[T\]>::iter$", r"BTreeMap::<K, V, A>::iter$", r"BTreeSet::<T, A>::iter$", r"option::Option::<T>::iter$",
+            r"iter::Iterator::(map|flat_map|cloned|copied|collect)$"]
+_RECURSE = [r"^schema_util::j2oas_schema(_object)?$", r"openapiv3::ReferenceOr::<T>::boxed_item$", r"boxed::Box::<T>::new$"]
+_ENUM = _COLLECT + [r"option::Option::<T>::unwrap_or_default$", r"serde_json::Number::as_(i64|f64|u64)$", r"boxed::Box::<T>::new_uninit$", r"boxed::box_assume_init_into_vec_unsafe$"]
+CARRY_EXTRA = {      # sink -> (extra allowed operations, reason)
+    "StringType.enumeration": (_ENUM, "element-wise conversion of the enum list (null -> None, string -> Some); vec![None] for the null type"),
+    "IntegerType.enumeration": (_ENUM, "element-wise conversion (as_i64().unwrap() fails loudly on a non-integer)"),
+    "NumberType.enumeration": (_ENUM, "element-wise conversion"),
+    "BooleanType.enumeration": (_ENUM, "element-wise conversion"),
+    "StringType.format": ([("ctrl-call", r"cmp::PartialEq::eq$")], "the format string selects a typed variant (table checked by C08.R4)"),
+    "IntegerType.format": ([("ctrl-call", r"cmp::PartialEq::eq$")], "as above"),
+    "NumberType.format": ([("ctrl-call", r"cmp::PartialEq::eq$")], "as above"),
+    "ArrayType.items": (_RECURSE, "the item schema is converted recursively"),
+    "ArrayType.unique_items": ([r"option::Option::<T>::unwrap_or$"], "absent uniqueItems means false in both dialects"),
+    "ObjectType.properties": (_COLLECT + _RECURSE, "each property schema is converted recursively"),
+    "ObjectType.required": (_COLLECT, "set -> list"),
+    "ObjectType.additional_properties": (_RECURSE, "schema form is converted recursively"),
+    "AdditionalProperties::Schema.0": (_RECURSE, "schema form is converted recursively"),
+    "SchemaKind::AllOf.all_of": (_COLLECT + _RECURSE, "members converted recursively"),
+    "SchemaKind::AnyOf.any_of": (_COLLECT + _RECURSE, "members converted recursively"),
+    "SchemaKind::OneOf.one_of": (_COLLECT + _RECURSE, "members converted recursively"),
+    "SchemaKind::Not.not": (_RECURSE, "converted recursively"),
+    "SchemaData.example": ([r"BTreeMap::<K, V, A>::get$"], "extensions[\"example\"]"),
+    "SchemaData.extensions": (_COLLECT + [r"iter::Iterator::filter$", r"str::<impl str>::starts_with$"], "only keys starting with x- are extensions in OpenAPI"),
+}
+
 KIND_TABLE = {"Null": "String", "Boolean": "Boolean", "Object": "Object", "Array": "Array", "Number": "Number", "String": "String", "Integer": "Integer"}
 FORMAT_TABLE = {"int32": ("IntegerFormat", "Int32"), "int64": ("IntegerFormat", "Int64"), "float": ("NumberFormat", "Float"), "double": ("NumberFormat", "Double"),
                 "date": ("StringFormat", "Date"), "date-time": ("StringFormat", "DateTime"), "password": ("StringFormat", "Password"),
@@ -176,7 +207,7 @@ class _Model:
                         oc.update(self.flow.origins(f, op, control=True))
                     for sb in controllers(f, bb):
                         oc.update(self.flow.origins(f, f.blocks[sb]["term"]["discr"], control=True))
-                self.sites.append({"fn": f, "bb": bb, "sink": _sink_name(adt, var, field), "adt": adt, "variant": var, "kind": kind, "o": o, "oc": oc})
+                self.sites.append({"fn": f, "bb": bb, "sink": _sink_name(adt, var, field), "adt": adt, "variant": var, "kind": kind, "o": o, "oc": oc, "ops": ops})
 
 
 _model_cache = {}
@@ -328,6 +359,44 @@ def _delivered(m):
             if g is not None and g.id in m.region:
                 work.append(g)
     return out
+
+
+# --------------------------------------------------------------------------- R1b
+def r1b_carried_unmodified(ctx):
+    R = ctx.rule("C08.R1b", "between the schemars field and the OpenAPI field a constraint value passes only through value-preserving operations (moves, clones, casts, Option::map of such, "
+                 "reviewed per-field conversions); no filter, comparison, arithmetic, min/max or substituted constant — also inside crate-local helpers and closures on the chain", floor=42)
+    m = _model(ctx, R)
+    co = ChainOps(m.flow, no_descend=[ENTRY, ENTRY_OBJ])
+    base = [re.compile(x) for x in CARRY_BASE]
+    for s in m.sites:
+        sink = s["sink"]
+        if sink in WRAPPERS or (sink in FLAGS and not _src(s["o"].fields)):
+            continue
+        f = s["fn"]
+        ops = set()
+        for op in s["ops"]:
+            ops |= co.ops(f, op)
+        extra = CARRY_EXTRA.get(sink, ([], ""))[0]
+        bad = []
+        for o in sorted(ops):
+            kind, what = o
+            if kind == "call":
+                g = m.ds.F.get(what)
+                if g is not None and g.raw["kind"] != "Closure" and g.raw["id"] not in (ENTRY, ENTRY_OBJ):
+                    continue        # crate-local helper: its body has been examined in place of the call
+                if any(r.search(what) for r in base) or any(isinstance(x, str) and re.search(x, what) for x in extra):
+                    continue
+                bad.append("call %s" % what)
+            elif kind == "ctrl-call":
+                if any(isinstance(x, tuple) and x[0] == kind and re.search(x[1], what) for x in extra):
+                    continue
+                bad.append("branch on %s" % what)
+            else:
+                bad.append("%s %s" % (kind.replace("ctrl-", "branch on "), what))
+        data = _src(s["o"].fields)
+        ctx.check(R, "carried:%s:%s<-%s" % (_fname(m.ds, f), sink, "+".join(sorted(data)) or "-"), not bad,
+                  "%s: operations on the chain from the schemars value %s" % (sink, ("are all value-preserving / reviewed (%d)" % len(ops)) if not bad else
+                                                                              ("include %s — the published constraint can differ from the type's own" % bad)), (f, s["bb"]))
 
 
 # --------------------------------------------------------------------------- R2
@@ -538,7 +607,7 @@ def r4_tables(ctx):
             ctx.check(R, "format:%s" % lit, False, "format %r is no longer translated to %s" % (lit, "::".join(FORMAT_TABLE[lit])), m.entry_obj)
 
 
-RULES = [("C08.R1", r1_mapping), ("C08.R2", r2_recursion), ("C08.R3", r3_single_entry), ("C08.R4", r4_tables)]
+RULES = [("C08.R1", r1_mapping), ("C08.R1b", r1b_carried_unmodified), ("C08.R2", r2_recursion), ("C08.R3", r3_single_entry), ("C08.R4", r4_tables)]
 
 SU = "dropshot/src/schema_util.rs"
 SELFTEST = [
@@ -569,6 +638,16 @@ SELFTEST = [
     {"name": "schema-built-outside-converter", "kind": "mutant", "edits": [("dropshot/src/api_description.rs", "                            definitions.extend(dependencies.clone());\n                            j2oas_schema(None, schema)\n                        }\n                        _ => {\n                            unimplemented!(\"this may happen for complex types\")",
                 "                            definitions.extend(dependencies.clone());\n                            let _ = j2oas_schema(None, schema);\n                            openapiv3::ReferenceOr::Item(openapiv3::Schema { schema_data: Default::default(), schema_kind: openapiv3::SchemaKind::Type(openapiv3::Type::String(Default::default())) })\n                        }\n                        _ => {\n                            unimplemented!(\"this may happen for complex types\")")],
      "expect": ["C08.R3"], "why": "a parameter schema is fabricated instead of converted"},
+    {"name": "adv-zero-limits-dropped", "kind": "mutant",
+     "edits": [(SU, "fn j2oas_string(\n", "fn j2oas_limit(limit: Option<u32>) -> Option<usize> {\n    limit.filter(|n| *n > 0).map(|n| n as usize)\n}\n\nfn j2oas_string(\n"),
+               (SU, "string.max_length.map(|n| n as usize),", "j2oas_limit(string.max_length),"),
+               (SU, "max_items: arr.max_items.map(|n| n as usize),", "max_items: j2oas_limit(arr.max_items),"),
+               (SU, "max_properties: obj.max_properties.map(|n| n as usize),", "max_properties: j2oas_limit(obj.max_properties),")],
+     "expect": ["C08.R1b"], "why": "adversary: a helper filters out zero limits, so maxItems/maxLength/maxProperties: 0 vanish and the published schema accepts more than the type"},
+    {"name": "maxlength-clamped", "kind": "mutant", "edits": [(SU, "string.max_length.map(|n| n as usize),", "string.max_length.map(|n| (n as usize).min(65535)),")],
+     "expect": ["C08.R1b"], "why": "maxLength is clamped: altered in translation"},
+    {"name": "minitems-if-positive", "kind": "mutant", "edits": [(SU, "min_items: arr.min_items.map(|n| n as usize),", "min_items: match arr.min_items { Some(n) if n > 1 => Some(n as usize), _ => None },")],
+     "expect": ["C08.R1b"], "why": "minItems: 1 is dropped by a comparison on the value"},
     {"name": "metadata-as-ref", "kind": "benign", "edits": [(SU, "if let Some(metadata) = &obj.metadata {", "if let Some(metadata) = obj.metadata.as_ref() {")],
      "why": "behaviour-preserving: borrow through Option::as_ref"},
     {"name": "title-assign-clone", "kind": "benign", "edits": [(SU, "data.title.clone_from(&metadata.title);", "data.title = metadata.title.clone();")],
@@ -587,6 +666,13 @@ SELFTEST = [
     {"name": "format-if-chain", "kind": "benign", "edits": [(SU, "        Some(\"float\") => openapiv3::VariantOrUnknownOrEmpty::Item(\n            openapiv3::NumberFormat::Float,\n        ),\n        Some(\"double\") => openapiv3::VariantOrUnknownOrEmpty::Item(\n            openapiv3::NumberFormat::Double,\n        ),",
                 "        Some(\"double\") => openapiv3::VariantOrUnknownOrEmpty::Item(\n            openapiv3::NumberFormat::Double,\n        ),\n        Some(f) if f == \"float\" => openapiv3::VariantOrUnknownOrEmpty::Item(\n            openapiv3::NumberFormat::Float,\n        ),")],
      "why": "behaviour-preserving: arms reordered, one literal pattern turned into a guard"},
+    {"name": "widen-helper", "kind": "benign",
+     "edits": [(SU, "fn j2oas_string(\n", "fn widen(x: Option<u32>) -> Option<usize> {\n    x.map(|n| n as usize)\n}\n\nfn j2oas_string(\n"),
+               (SU, "string.max_length.map(|n| n as usize),", "widen(string.max_length),"),
+               (SU, "string.min_length.map(|n| n as usize),", "widen(string.min_length),"),
+               (SU, "min_items: arr.min_items.map(|n| n as usize),", "min_items: widen(arr.min_items),"),
+               (SU, "max_properties: obj.max_properties.map(|n| n as usize),", "max_properties: widen(obj.max_properties),")],
+     "why": "behaviour-preserving: the widening cast is moved into a shared helper"},
     {"name": "extra-read", "kind": "benign", "edits": [(SU, "    let mut data = openapiv3::SchemaData::default();\n", "    let _has_format = obj.format.is_some();\n    let mut data = openapiv3::SchemaData::default();\n")],
      "why": "behaviour-preserving: an unused extra read"},
 ]
